@@ -285,6 +285,7 @@ func run(c *core.Ctx) {
 	// (a) generators
 	gens := c02gen.Cases(th)
 	c.Bound("generator_cases", len(gens))
+	var mine []c02gen.Case
 	for _, g := range gens {
 		if !c.Next() {
 			continue
@@ -293,6 +294,17 @@ func run(c *core.Ctx) {
 			return
 		}
 		k.gen(g)
+		mine = append(mine, g)
+	}
+	// the same cases once more in the opposite order: every generator is also asked after the process
+	// has served the later (mostly larger) parameterisations — whatever a generator keeps between calls
+	// (a cache, a pooled buffer, a lazily built table) was then filled by another request
+	c.Bound("generator_cases_second_pass", "each shard's generator cases again in descending order, in the same process")
+	for i := len(mine) - 1; i >= 0; i-- {
+		if c.Expired() {
+			return
+		}
+		k.gen(mine[i])
 	}
 
 	// (b) every operation × every variant × S_mesh
